@@ -47,6 +47,19 @@ func c01CRun(c C01CCase, st *kit.Stats) error {
 			return fmt.Errorf("ECHO: %v %v", v, err)
 		}
 	}
+	// a command whose last argument is empty, with the segment ending right after the "$0\r\n" header, in the
+	// middle of it, and right before it
+	for _, argv := range [][]string{{"ECHO", ""}, {"SET", "e", ""}, {"RPUSH", "el", "a", ""}, {"APPEND", "e", ""}} {
+		enc := kit.EncodeCmd(argv...)
+		for _, back := range []int{2, 3, 6} { // bytes of the frame that arrive later: CRLF / 0 CR LF ... / the whole $0 header and CRLF
+			conn.Write(enc[:len(enc)-back])
+			time.Sleep(time.Duration(c.Pause) * time.Millisecond)
+			conn.Write(enc[len(enc)-back:])
+			if v, err := conn.Read(3 * time.Second); err != nil || v.IsErr() {
+				return fmt.Errorf("%q with the last %d bytes of the frame in a second segment: %v %v", argv, back, v, err)
+			}
+		}
+	}
 	first := kit.EncodeCmd("SET", "k", strings.Repeat("v", c.ValLen))
 	var rest []byte
 	var want []string
